@@ -222,17 +222,30 @@ def reload_cases(tier, seed):
         steps = rng.randint(2, 7)
         at = rng.randint(0, steps)
         s.dump()
+        directed = rng.random() < 0.25
+        if directed:
+            # something is pending and the pass has already looked at it (it is not due yet) when the configuration is
+            # rewritten: whatever the pass remembered about the old interval must not outlive it
+            f = rng.choice(files)
+            s.put(f, "early")
+            s.write(3, f)
+            s.dump()
+            s.timeout()
+            s.dump()
+            at = 0
         for j in range(steps + 1):
             if j == at:
                 new = copy.deepcopy(cfg)
-                kind = rng.choice(["deb", "queue", "journal", "rules", "invalid", "illtyped", "badjournal", "badjournal", "stamp", "stamp"])
-                if kind == "stamp":
+                kind = "deb" if directed else rng.choice(["deb", "queue", "journal", "rules", "invalid", "illtyped", "badjournal", "badjournal", "stamp", "stamp"])
+                if directed:
+                    new.deb = 0
+                elif kind == "stamp":
                     # the journal stays where it is; only the way its lines are stamped changes (alone, or together
                     # with the way versions are named): every later line must carry the new stamp
                     new.jpat = rng.choice([p_ for p_ in ["", "x", "t%s-", "%s"] if p_ != new.jpat])
                     if rng.random() < 0.5:
                         new.vpat = "w%s"
-                elif kind == "deb":
+                elif kind == "deb" and not directed:
                     new.deb = rng.choice([0, 5])
                 elif kind == "queue":
                     new.queue = wc.R + "/k/var/queue2"
@@ -258,6 +271,9 @@ def reload_cases(tier, seed):
                         cfg = new
                 s.write(3, wc.CFG_PATH)
                 s.dump()
+                if directed:
+                    s.timeout()
+                    s.dump()
                 if failing and rng.random() < 0.4:
                     # what main() does: the daemon stops; the administrator repairs the file and restarts
                     s.config(cfg, valid=True)
